@@ -563,6 +563,9 @@ validation:
 		c.Check("R12.3", "dig.New/filterAGG-from-config", dn.Pos(), okLower, "the integration's aggregation is the configured one (lower-cased)")
 	}
 
+	c.Rule("R12.6", "one integration's address restriction never costs another integration a log: logs fetched for one task are merged into the shared cached block, dropped only as duplicates", 2)
+	checkLogsAddDedup(c, "R12.6")
+	checkLogsMergedNotReplaced(c, "R12.6")
 	c.Rule("R12.5", "every read of a filter argument by position is preceded by a proof that the argument list is long enough", 3)
 	{
 		acc := w.Fn("dig", "Filter.Accept")
